@@ -233,7 +233,7 @@ def handle (toks : List String) : String :=
     | "amod" :: t :: rest => do
       let tm ← decStr t
       let (vs, r) ← pList pVal rest
-      if r ≠ [] then none else pure (encRes encFrags (ansiMod tb tm vs))
+      if r ≠ [] then none else pure (encRes encFrags (ansiMod tb pr tm vs))
     | ["repr", s] => do pure (encStr (pyRepr pr (← decStr s)))
     | ["ascii", s] => do pure (encStr (asciiEscape (pyRepr pr (← decStr s))))
     | ["html", s] => do pure (encHRes (html (← decStr s)))
@@ -245,7 +245,7 @@ def handle (toks : List String) : String :=
     | "hmod" :: t :: rest => do
       let tm ← decStr t
       let (vs, r) ← pList pVal rest
-      if r ≠ [] then none else pure (encHFmt (htmlMod tm vs))
+      if r ≠ [] then none else pure (encHFmt (htmlMod pr tm vs))
     | "split" :: rest => do
       let (fs, r) ← pList pFrag rest
       if r ≠ [] then none else pure (encList encFrags (splitLines fs))
